@@ -2,7 +2,7 @@
     Statements only; proofs are in Proofs/Coinswap*.v. *)
 From Coq Require Import ZArith List Bool.
 From Canto Require Import Lib.SdkInt Lib.SdkDec Model.Coinswap Proofs.CoinswapBase Proofs.CoinswapEffects
-     Proofs.CoinswapValue Proofs.CoinswapWF Proofs.CoinswapLaws Proofs.CoinswapHistory.
+     Proofs.CoinswapValue Proofs.CoinswapWF Proofs.CoinswapLaws Proofs.CoinswapHistory Proofs.CoinswapReserves.
 Import ListNotations.
 Open Scope Z_scope.
 
